@@ -62,19 +62,19 @@ type Cluster struct {
 	MaxCuts              int
 	FaultsOn             bool
 
-	mu       sync.Mutex
-	serfs    map[string]*Serf   // node name -> current agent
-	servers  map[string]*Server // fed addr -> live server
-	AddrNode map[string]string  // fed addr / gossip addr -> node name
-	blocked  map[[2]string]bool // directed reachability (by node name)
-	rpcs     []*RPC
-	Log      []*Frame
-	Members  []MemberEvent // every membership event delivered
-	Faults   map[string]int
+	mu        sync.Mutex
+	serfs     map[string]*Serf   // node name -> current agent
+	servers   map[string]*Server // fed addr -> live server
+	AddrNode  map[string]string  // fed addr / gossip addr -> node name
+	blocked   map[[2]string]bool // directed reachability (by node name)
+	rpcs      []*RPC
+	Log       []*Frame
+	Members   []MemberEvent // every membership event delivered
+	Faults    map[string]int
 	LastFault time.Duration // simulated time of the last injected fault or membership event
-	seq      int
-	cuts     int
-	uuid     int
+	seq       int
+	cuts      int
+	uuid      int
 }
 
 // MemberEvent records one membership notification as delivered to an observer.
@@ -93,6 +93,8 @@ var (
 )
 
 // Install makes c the cluster used by the redirected calls (nil to remove).
+//
+//go:norace
 func Install(c *Cluster) {
 	curMu.Lock()
 	defer curMu.Unlock()
@@ -117,12 +119,15 @@ func Install(c *Cluster) {
 }
 
 // Active returns the installed cluster.
+//
+//go:norace
 func Active() *Cluster {
 	curMu.Lock()
 	defer curMu.Unlock()
 	return cur
 }
 
+//go:norace
 func (c *Cluster) dur(lo, hi time.Duration) time.Duration {
 	if hi <= lo {
 		return lo
@@ -130,6 +135,7 @@ func (c *Cluster) dur(lo, hi time.Duration) time.Duration {
 	return lo + time.Duration(c.Rng.Int64N(int64(hi-lo)+1))
 }
 
+//go:norace
 func (c *Cluster) now() time.Duration { return time.Since(c.T0) }
 
 // ---------------------------------------------------------------- uuid
@@ -137,9 +143,12 @@ func (c *Cluster) now() time.Duration { return time.Since(c.T0) }
 // U is the return type of the redirected uuid.New.
 type U string
 
+//go:norace
 func (u U) String() string { return string(u) }
 
 // UUID replaces uuid.New: unique per run, deterministic.
+//
+//go:norace
 func UUID() U {
 	c := Active()
 	if c == nil {
@@ -166,6 +175,8 @@ type Serf struct {
 }
 
 // SerfCreate replaces serf.Create.
+//
+//go:norace
 func SerfCreate(conf *serf.Config) (*Serf, error) {
 	c := Active()
 	if c == nil {
@@ -187,6 +198,7 @@ func SerfCreate(conf *serf.Config) (*Serf, error) {
 	return s, nil
 }
 
+//go:norace
 func (c *Cluster) member(name string) serf.Member {
 	m := serf.Member{Name: name, Addr: net.IPv4(10, 0, 0, 1), Port: 8902, Status: serf.StatusAlive}
 	if s := c.serfs[name]; s != nil {
@@ -199,6 +211,8 @@ func (c *Cluster) member(name string) serf.Member {
 }
 
 // pushLocked delivers a membership event to observer o if it is a legal transition of o's view.
+//
+//go:norace
 func (c *Cluster) pushLocked(o *Serf, subject string, typ serf.EventType) bool {
 	if o.State != "alive" {
 		return false
@@ -240,6 +254,8 @@ func (c *Cluster) pushLocked(o *Serf, subject string, typ serf.EventType) bool {
 }
 
 // Notify schedules delivery of a membership event about subject to observer after the gossip delay.
+//
+//go:norace
 func (c *Cluster) Notify(observer, subject string, typ serf.EventType, d time.Duration) {
 	c.After(d, fmt.Sprintf("gossip:%s sees %s %s", observer, subject, typ), func() {
 		c.mu.Lock()
@@ -251,6 +267,8 @@ func (c *Cluster) Notify(observer, subject string, typ serf.EventType, d time.Du
 }
 
 // Alive reports whether the node's agent is running.
+//
+//go:norace
 func (c *Cluster) Alive(name string) bool {
 	c.mu.Lock()
 	defer c.mu.Unlock()
@@ -259,6 +277,8 @@ func (c *Cluster) Alive(name string) bool {
 }
 
 // View returns observer's current opinion of subject ("" if unknown).
+//
+//go:norace
 func (c *Cluster) View(observer, subject string) string {
 	c.mu.Lock()
 	defer c.mu.Unlock()
@@ -274,6 +294,8 @@ func (c *Cluster) View(observer, subject string) string {
 }
 
 // Join implements iSerf.
+//
+//go:norace
 func (s *Serf) Join(existing []string, ignoreOld bool) (int, error) {
 	simrt.Yield()
 	c := s.cl
@@ -311,9 +333,13 @@ func (s *Serf) Join(existing []string, ignoreOld bool) (int, error) {
 }
 
 // RemoveFailedNode implements iSerf.
+//
+//go:norace
 func (s *Serf) RemoveFailedNode(node string) error { return nil }
 
 // Leave implements iSerf: the others see a graceful leave.
+//
+//go:norace
 func (s *Serf) Leave() error {
 	simrt.Yield()
 	c := s.cl
@@ -331,6 +357,7 @@ func (s *Serf) Leave() error {
 	return nil
 }
 
+//go:norace
 func sortedSerfs(m map[string]*Serf) []string {
 	names := make([]string, 0, len(m))
 	for k := range m {
@@ -341,6 +368,8 @@ func sortedSerfs(m map[string]*Serf) []string {
 }
 
 // Members implements iSerf.
+//
+//go:norace
 func (s *Serf) Members() []serf.Member {
 	c := s.cl
 	c.mu.Lock()
@@ -360,6 +389,8 @@ func (s *Serf) Members() []serf.Member {
 }
 
 // Shutdown implements iSerf.
+//
+//go:norace
 func (s *Serf) Shutdown() error {
 	c := s.cl
 	c.mu.Lock()
@@ -373,6 +404,8 @@ func (s *Serf) Shutdown() error {
 // ---------------------------------------------------------------- reachability and node death
 
 // Block makes new RPCs from node a to node b fail and cuts the transports that exist (directed).
+//
+//go:norace
 func (c *Cluster) Block(a, b string, on bool) {
 	c.mu.Lock()
 	c.blocked[[2]string{a, b}] = on
@@ -392,6 +425,8 @@ func (c *Cluster) Block(a, b string, on bool) {
 
 // KillNode models the death of a node's process: its agent stops, its gRPC server disappears, every
 // transport from or to it is cut and nothing it still sends leaves the machine.
+//
+//go:norace
 func (c *Cluster) KillNode(name string) {
 	c.mu.Lock()
 	c.LastFault = c.now()
@@ -417,6 +452,8 @@ func (c *Cluster) KillNode(name string) {
 }
 
 // CutBetween cuts every live transport between client node a and server node b; returns how many.
+//
+//go:norace
 func (c *Cluster) CutBetween(a, b string) int {
 	c.mu.Lock()
 	var hit []*RPC
@@ -433,6 +470,8 @@ func (c *Cluster) CutBetween(a, b string) int {
 }
 
 // ActiveStreams returns the number of live streaming RPCs from a to b.
+//
+//go:norace
 func (c *Cluster) ActiveStreams(a, b string) int {
 	c.mu.Lock()
 	defer c.mu.Unlock()
@@ -463,11 +502,15 @@ type Server struct {
 }
 
 // NewGRPCServer replaces grpc.NewServer.
+//
+//go:norace
 func NewGRPCServer(opts ...grpc.ServerOption) *Server {
 	return &Server{cl: Active(), services: map[string]*service{}}
 }
 
 // RegisterService implements grpc.ServiceRegistrar.
+//
+//go:norace
 func (s *Server) RegisterService(desc *grpc.ServiceDesc, impl any) {
 	s.services[desc.ServiceName] = &service{desc, impl}
 }
@@ -477,16 +520,26 @@ type listener struct {
 	cl   *Cluster
 }
 
+//go:norace
 func (l *listener) Accept() (net.Conn, error) { return nil, errors.New("simfed: not a real listener") }
-func (l *listener) Close() error              { return nil }
-func (l *listener) Addr() net.Addr            { return addr(l.addr) }
+
+//go:norace
+func (l *listener) Close() error { return nil }
+
+//go:norace
+func (l *listener) Addr() net.Addr { return addr(l.addr) }
 
 type addr string
 
+//go:norace
 func (a addr) Network() string { return "simfed" }
-func (a addr) String() string  { return string(a) }
+
+//go:norace
+func (a addr) String() string { return string(a) }
 
 // Listen replaces net.Listen in the federation plugin.
+//
+//go:norace
 func Listen(network, address string) (net.Listener, error) {
 	c := Active()
 	if c == nil {
@@ -501,6 +554,8 @@ func Listen(network, address string) (net.Listener, error) {
 }
 
 // Serve registers the server at the listener's address and blocks until the server dies.
+//
+//go:norace
 func (s *Server) Serve(l net.Listener) error {
 	c := s.cl
 	c.mu.Lock()
@@ -522,6 +577,8 @@ func (s *Server) Serve(l net.Listener) error {
 }
 
 // Stop ends Serve.
+//
+//go:norace
 func (s *Server) Stop() {
 	c := s.cl
 	c.mu.Lock()
@@ -536,6 +593,8 @@ func (s *Server) Stop() {
 }
 
 // GracefulStop is Stop.
+//
+//go:norace
 func (s *Server) GracefulStop() { s.Stop() }
 
 // ---------------------------------------------------------------- transports and RPCs
@@ -566,6 +625,7 @@ type RPC struct {
 	md       metadata.MD
 }
 
+//go:norace
 func (c *Cluster) wake(s *side) {
 	w := s.waiters
 	s.waiters = nil
@@ -573,6 +633,8 @@ func (c *Cluster) wake(s *side) {
 }
 
 // Cut kills the transport now: frames in flight are lost; each side learns of it a little later.
+//
+//go:norace
 func (r *RPC) Cut(reason string) {
 	c := r.cl
 	c.mu.Lock()
@@ -605,6 +667,8 @@ func (r *RPC) Cut(reason string) {
 }
 
 // send puts a frame on the wire from one side to the other.
+//
+//go:norace
 func (r *RPC) send(toServer bool, f *Frame) error {
 	c := r.cl
 	c.mu.Lock()
@@ -674,6 +738,8 @@ func (r *RPC) send(toServer bool, f *Frame) error {
 }
 
 // recv waits for the next frame for one side.
+//
+//go:norace
 func (r *RPC) recv(server bool) (*Frame, error) {
 	c := r.cl
 	simrt.Yield()
@@ -709,6 +775,8 @@ type ClientConn struct {
 }
 
 // Dial replaces grpc.Dial (non-blocking, like the original).
+//
+//go:norace
 func Dial(target string, opts ...grpc.DialOption) (*ClientConn, error) {
 	c := Active()
 	if c == nil {
@@ -718,6 +786,8 @@ func Dial(target string, opts ...grpc.DialOption) (*ClientConn, error) {
 }
 
 // Close implements the part of grpc.ClientConn the plugin uses: every RPC on it is cancelled.
+//
+//go:norace
 func (cc *ClientConn) Close() error {
 	c := cc.cl
 	c.mu.Lock()
@@ -759,6 +829,7 @@ func (cc *ClientConn) Close() error {
 	return nil
 }
 
+//go:norace
 func (cc *ClientConn) open(ctx context.Context, method string, stream bool) (*RPC, *Server, error) {
 	c := cc.cl
 	simrt.Yield()
@@ -787,6 +858,7 @@ func (cc *ClientConn) open(ctx context.Context, method string, stream bool) (*RP
 	return r, srv, nil
 }
 
+//go:norace
 func splitMethod(m string) (svc, name string) {
 	// "/pkg.Service/Method"
 	for i := len(m) - 1; i > 0; i-- {
@@ -797,6 +869,7 @@ func splitMethod(m string) (svc, name string) {
 	return "", m
 }
 
+//go:norace
 func typeName(m any) string {
 	if pm, ok := m.(proto.Message); ok {
 		return string(pm.ProtoReflect().Descriptor().FullName())
@@ -805,6 +878,8 @@ func typeName(m any) string {
 }
 
 // Invoke implements grpc.ClientConnInterface (unary call).
+//
+//go:norace
 func (cc *ClientConn) Invoke(ctx context.Context, method string, args, reply any, opts ...grpc.CallOption) error {
 	r, srv, err := cc.open(ctx, method, false)
 	if err != nil {
@@ -837,6 +912,8 @@ func (cc *ClientConn) Invoke(ctx context.Context, method string, args, reply any
 }
 
 // startServer arranges for the handler to run once the first frame arrives.
+//
+//go:norace
 func (r *RPC) startServer(srv *Server, svcName, mName string) {
 	c := r.cl
 	svc := srv.services[svcName]
@@ -896,6 +973,8 @@ func (r *RPC) startServer(srv *Server, svcName, mName string) {
 }
 
 // NewStream implements grpc.ClientConnInterface.
+//
+//go:norace
 func (cc *ClientConn) NewStream(ctx context.Context, desc *grpc.StreamDesc, method string, opts ...grpc.CallOption) (grpc.ClientStream, error) {
 	r, srv, err := cc.open(ctx, method, true)
 	if err != nil {
@@ -916,14 +995,22 @@ type clientStream struct {
 	err  error
 }
 
+//go:norace
 func (s *clientStream) Header() (metadata.MD, error) { return metadata.MD{}, nil }
-func (s *clientStream) Trailer() metadata.MD         { return metadata.MD{} }
-func (s *clientStream) Context() context.Context     { return s.ctx }
+
+//go:norace
+func (s *clientStream) Trailer() metadata.MD { return metadata.MD{} }
+
+//go:norace
+func (s *clientStream) Context() context.Context { return s.ctx }
+
+//go:norace
 func (s *clientStream) CloseSend() error {
 	s.r.send(true, &Frame{Kind: "close"})
 	return nil
 }
 
+//go:norace
 func (s *clientStream) SendMsg(m any) error {
 	simrt.Yield()
 	c := s.r.cl
@@ -940,6 +1027,7 @@ func (s *clientStream) SendMsg(m any) error {
 	return s.r.send(true, &Frame{Kind: "msg", Type: typeName(m), B: b})
 }
 
+//go:norace
 func (s *clientStream) RecvMsg(m any) error {
 	if s.done {
 		return s.err
@@ -967,6 +1055,7 @@ func (s *clientStream) RecvMsg(m any) error {
 	}
 }
 
+//go:norace
 func (s *clientStream) finish(err error) {
 	s.done, s.err = true, err
 	c := s.r.cl
@@ -980,11 +1069,19 @@ type serverStream struct {
 	ctx context.Context
 }
 
-func (s *serverStream) SetHeader(metadata.MD) error  { return nil }
-func (s *serverStream) SendHeader(metadata.MD) error { return nil }
-func (s *serverStream) SetTrailer(metadata.MD)       {}
-func (s *serverStream) Context() context.Context     { return s.ctx }
+//go:norace
+func (s *serverStream) SetHeader(metadata.MD) error { return nil }
 
+//go:norace
+func (s *serverStream) SendHeader(metadata.MD) error { return nil }
+
+//go:norace
+func (s *serverStream) SetTrailer(metadata.MD) {}
+
+//go:norace
+func (s *serverStream) Context() context.Context { return s.ctx }
+
+//go:norace
 func (s *serverStream) SendMsg(m any) error {
 	simrt.Yield()
 	b, err := proto.Marshal(m.(proto.Message))
@@ -997,6 +1094,7 @@ func (s *serverStream) SendMsg(m any) error {
 	return nil
 }
 
+//go:norace
 func (s *serverStream) RecvMsg(m any) error {
 	for {
 		f, err := s.r.recv(true)
